@@ -71,7 +71,7 @@ def c02(run):
         flav.append({"tbl": t, "yymore": True})
     srcs = hand[:3] + [s for s in core if s["profile"] in ("mix", "nul", "sc", "trail")]
     cases = units.product_unit(run, fd, srcs, flav, tag="flavours", san=True)
-    units.trace_unit(run, cases, rng, per_case=6 if q else 24, tag="flavtraces")
+    units.trace_unit(run, cases, rng, per_case=16 if q else 60, tag="flavtraces", full_cover=40 if q else 200)
     run.assumptions += ["go back end is outside the property (not a documented back end)",
                         "C++ class and c99 back ends: see checks C12/C19 (own harness)"]
 
@@ -96,10 +96,8 @@ def c04(run):
             out.append(bytes(s))
         return out
     sel = [c for c in cases if c.status == "ok"]
-    rng.shuffle(sel)
-    sel = sel[:60 if q else 400]
-    units.trace_unit(run, sel, rng, per_case=8 if q else 20, tag="nultraces", bufsizes=(0, 1, 2, 3, 5, 8),
-                     scheds=[[1], [2], [1, 3], [], [7]], inputs_fn=nul_inputs)
+    units.trace_unit(run, sel, rng, per_case=10 if q else 30, tag="nultraces", bufsizes=(0, 1, 2, 3, 5, 8),
+                     scheds=[[1], [2], [1, 3], [], [7]], inputs_fn=nul_inputs, full_cover=60 if q else 400)
 
 
 @check("C06")
@@ -123,7 +121,8 @@ def c07(run):
     srcs = fam(run, profiles=("lit", "ops", "trail", "sc", "mix", "ccl", "rep"), core=3 if q else 10, rnd=40)
     cfgs = [{"tbl": "", "reject": True, "yymore": True}, {"tbl": "-Cm", "reject": True, "interactive": False}]
     cases = units.product_unit(run, fd, srcs, cfgs, tag="product", san=True)
-    units.trace_unit(run, [c for c in cases if c.status == "ok"], rng, per_case=8 if q else 24, tag="rejtraces")
+    units.trace_unit(run, [c for c in cases if c.status == "ok"], rng, per_case=24 if q else 80, tag="rejtraces",
+                     full_cover=40 if q else 200)
     # REJECT together with -Cf/-CF must be refused
     units.product_unit(run, fd, srcs[:6], tbl_cfgs(["-Cf", "-CF", "-Cfe"], reject=(True,)), tag="refusal")
 
